@@ -9,18 +9,18 @@
 
    Hypothesis `threads_small`: fewer than 2^16 - 128 thread ids were ever handed out.  It is needed: for_each casts
    snapshot.size() to uint16_t, which is 0 once the storage has 65536 lines (not replayed on the real code).
+   Hypothesis of c19_extreme_exact: the history is shorter than SIZE_MAX operations (a period version never reaches
+   the Slot sentinel SIZE_MAX).
 
-   Proved for all histories:  c19_sum_exact, c19_fresh_is_zero, c19_local_private, c19_local_stable,
-   c19_for_each_all_used, c19_for_each_alive_const_in_bounds.
-   Refuted on the faithful model, witnesses replayed on the real classes by checks/c19.py (KNOWN_FINDINGS):
-   c19_for_each_alive_refuted (non-const overload reads out of bounds, DESIGN F6) and c19_extreme_refuted (a
-   maxer/miner whose only sample equals the sentinel numeric_limits min/max reports an empty period).
-   NOT proved (stated in the header only, checked by monitors on the implementation):
-   - for_each_alive (const) visits EXACTLY the lines of live threads below the storage size (only in-bounds proved);
-   - maxer/miner: value() = extreme of the current period when no sample equals the sentinel;
-   Reader bounds (c19_reader_bounds) are proved for an interleaving machine of single-writer slots and one reader
-   (one step = one plain load/store of the real code, sequentially consistent); on the real classes they are checked
-   by the concurrent stress monitor. *)
+   Proved for all histories: c19_sum_exact, c19_extreme_exact, c19_fresh_is_zero, c19_local_private,
+   c19_local_stable, c19_for_each_all_used, c19_for_each_alive_in_bounds, c19_for_each_alive_exact; for all
+   schedules of the interleaving machine: c19_reader_bounds (on the real classes: concurrent stress monitor).
+
+   History: two statements were refuted on the model of the code as it was and reproduced on the real classes -
+   non-const for_each_alive read out of bounds (fixed in /repo 31db6ff) and a maxer/miner whose only sample was
+   numeric_limits min/max reported an empty period (fixed in 37f7c2a).  The clamps and the `!has_result ||` disjunct
+   are regenerated from the source (alive_nc_begin/end, read_accept): reverting either fix re-opens
+   c19_for_each_alive_in_bounds / c19_extreme_exact. *)
 From Coq Require Import ZArith List.
 Require Import Verif.Conc.Machine.
 Require Import Verif.Gen.Gen_counter Verif.CT.CTModel Verif.CT.CTProofs.
@@ -68,25 +68,31 @@ Theorem c19_for_each_all_used : forall cf h s k, cfg_ok cf ->
 Proof. exact ct_for_each_all_used. Qed.
 Print Assumptions c19_for_each_all_used.
 
-(* for_each_alive, const overload: never reads outside the storage (any state). *)
-Theorem c19_for_each_alive_const_in_bounds_partial : forall x s, for_each_alive x true s <> None.
-Proof. exact ct_alive_const_in_bounds. Qed.
-Print Assumptions c19_for_each_alive_const_in_bounds_partial.
+(* for_each_alive, both overloads (cst = true: const; false: the non-const one CompactEnumerableThreadLocal
+   reaches): never reads outside the storage, in any state. *)
+Theorem c19_for_each_alive_in_bounds : forall x cst s, for_each_alive x cst s <> None.
+Proof. exact ct_alive_in_bounds. Qed.
+Print Assumptions c19_for_each_alive_in_bounds.
 
-(* for_each_alive, non-const overload (the one CompactEnumerableThreadLocal uses): reads out of bounds when a live
-   thread's id is beyond this storage's size. *)
-Theorem c19_for_each_alive_refuted :
-  exists cf h c, cfg_ok cf /\ threads_small cf (run cf (start cf) h) /\ chnd (run cf (start cf) h) c <> None /\
-    snd (step cf (run cf (start cf) h) (CAlive c false)) = OList None.
-Proof. exact ct_alive_nonconst_refuted. Qed.
-Print Assumptions c19_for_each_alive_refuted.
+(* for_each_alive visits exactly the lines of the live threads this storage has room for, each once. *)
+Theorem c19_for_each_alive_exact : forall cf h cst s, cfg_ok cf ->
+  let x := run cf (start cf) h in
+  threads_small cf x ->
+  exists L, for_each_alive x cst s = Some L /\ NoDup L /\
+    forall k, In k L <-> (k < csize x s)%nat /\ exists t, t_alive (thr x t) = true /\ t_tid (thr x t) = Some k.
+Proof. exact ct_for_each_alive_exact. Qed.
+Print Assumptions c19_for_each_alive_exact.
 
-(* maxer: the only sample of the period is numeric_limits<ssize_t>::min(): value() reports no sample. *)
-Theorem c19_extreme_refuted :
-  exists h c, let x := run cfg_maxer (start cfg_maxer) h in
-    g_per x c = [int64_min] /\ chnd x c <> None /\ step cfg_maxer x (CRead c) = (x, OVal 0%Z 0%Z).
-Proof. exact ct_extreme_refuted. Qed.
-Print Assumptions c19_extreme_refuted.
+(* A maxer / miner reports the extreme of the current period: a sample of the period such that no sample is
+   strictly more extreme - for every sample value, numeric_limits min/max included - and "none" for an empty
+   period; across thread exit/slot reuse, instance recycling and resets. *)
+Theorem c19_extreme_exact : forall cf h c i, cfg_ok cf -> ck cf = KMaxer \/ ck cf = KMiner ->
+  let x := run cf (start cf) h in
+  threads_small cf x -> (Z.of_nat (length h) < slot_init_version)%Z -> chnd x c = Some i ->
+  (g_per x c = [] -> step cf x (CRead c) = (x, OVal 0%Z 0%Z)) /\
+  (g_per x c <> [] -> exists m, is_extreme (ck cf) m (g_per x c) /\ step cf x (CRead c) = (x, OVal m 1%Z)).
+Proof. exact ct_extreme_exact. Qed.
+Print Assumptions c19_extreme_exact.
 
 (* All interleavings of counting threads with a reading thread: n single-writer slots (each writer adds the values
    of its program, non-negative, one aligned store per addition), one reader that loads the slots in order; a
@@ -99,19 +105,23 @@ Theorem c19_reader_bounds : forall slots prog x, length prog = length slots -> n
 Proof. exact ct_reader_bounds. Qed.
 Print Assumptions c19_reader_bounds.
 
-(* ---- stated, not proved (monitors only) ----
-   c19_for_each_alive_exact : for every history h, storage s: for_each_alive x true s = Some (the ids k < csize x s
-     that are allocated and not on the free list, in increasing order).
-   c19_extreme_exact : for kinds KMaxer/KMiner, every history without moves and with fewer than 2^64-1 resets, live
-     handle c whose current period g_per x c is non-empty and contains no sample equal to extremum k:
-     step cf x (CRead c) = (x, OVal m 1) with m in g_per x c and no sample of the period more extreme than m;
-     empty period: OVal 0 0. *)
-
 (* ---- non-vacuity ---- *)
 Example c19_reader_run :
   let x := Machine.run rst rstep (rinit [0; 0]%Z [[1; 2]; [5]]%Z) [2; 0; 1; 2; 0]%nat in
   r_started x = true /\ r_pos x = length (r_slots x) /\ (r_lo x, r_acc x, SZ (r_slots x)) = (0, 5, 8)%Z.
 Proof. vm_compute. repeat split. Qed.
+
+(* the former refutation witnesses now satisfy the theorems: the 17th instance (second storage, never touched) with a
+   live thread that used the first; a maxer whose only sample is INT64_MIN *)
+Example c19_former_oob_witness :
+  let x := run cfg_compact16 (start cfg_compact16) (Spawn 0 :: map CNew (seq 0 17) ++ [CAdd 0 0 5%Z]) in
+  chnd x 16 = Some {| i_iid := 16; i_off := 0; i_sto := 1 |} /\ csize x 1 = 0%nat /\
+  for_each_alive x false 1 = Some [] /\ for_each_alive x false 0 = Some [0%nat].
+Proof. vm_compute. repeat split. Qed.
+Example c19_former_sentinel_witness :
+  let x := run cfg_maxer (start cfg_maxer) [Spawn 0; CNew 0; CAdd 0 0 int64_min] in
+  g_per x 0 = [int64_min] /\ snd (step cfg_maxer x (CRead 0)) = OVal int64_min 1.
+Proof. cbv zeta. split; vm_compute; reflexivity. Qed.
 
 Example c19_real_configurations_ok :
   cfg_ok cfg_compact16 /\ cfg_ok cfg_adder /\ cfg_ok cfg_summer /\ cfg_ok cfg_maxer /\ cfg_ok cfg_miner.
